@@ -135,6 +135,44 @@ def make_pattern(kind, shape, pattern):
     return np.array(flat, dtype=kind).reshape(shape)
 
 
+LONG_KINDS = ["b1", "u2", "i4", "u4", "i8", "u8", "f4", "f8", "M8[ns]", "m8[us]", "U"]
+LONG_N = (20, 1024, 4096, 5000)
+CHANGE_POINTS = (4, 15, 100, 1000, 1023, 1024, 4095, 4096)
+
+
+def make_long(kind, n, pattern, byteorder="="):
+    """long 1-d arrays (per-line columns of a real image have thousands of entries): piecewise constant with change
+    points whose decimal strings sort differently from the numbers, and ramps over the whole value range"""
+    idx = np.arange(n)
+    stretch = sum((idx >= c).astype(int) for c in CHANGE_POINTS)
+    if kind == "b1":
+        arr = (stretch % 2 == 0) if pattern == "steps" else (idx % 3 == 0)
+    elif kind[0] in "iu":
+        info = np.iinfo(kind)
+        if pattern == "steps":
+            levels = [info.max, 0, info.min, info.max - 1, 1, info.max // 2 + 1, 7, info.min + 1, 2**31 if info.bits >= 32 and info.min == 0 else 3]
+            arr = np.array([levels[k % len(levels)] for k in stretch], dtype=kind)
+        else:
+            arr = (np.linspace(float(info.min), float(info.max), n) // 1).clip(info.min, info.max)
+            arr = np.array([int(x) for x in arr], dtype="object").astype(kind) if info.bits < 64 else np.array([info.min + (k * ((int(info.max) - int(info.min)) // max(n - 1, 1))) for k in range(n)], dtype=kind)
+    elif kind[0] == "f":
+        vals = float_values(kind)
+        arr = np.array([vals[k % len(vals)] for k in (stretch if pattern == "steps" else idx)], dtype=kind)
+    elif kind[0] in "Mm":
+        base = 1409282514000000000 if "ns" in kind else 86399999999
+        ints = [base, I64MIN, base + 1, 0, -1, base - 1, 1, base + 2**31, base + 2**32]
+        flat = [ints[k % len(ints)] for k in stretch] if pattern == "steps" else [base + int(k) * 1000003 for k in idx]
+        arr = np.array(flat, dtype="int64").view(kind)
+    elif kind == "U":
+        arr = np.array([STRINGS[k % len(STRINGS)] for k in (stretch if pattern == "steps" else idx)])
+    else:
+        raise ValueError(kind)
+    arr = np.asarray(arr)
+    if byteorder != "=" and arr.dtype.kind not in "bU" and arr.dtype.itemsize > 1:
+        arr = arr.astype(arr.dtype.newbyteorder(byteorder))
+    return arr
+
+
 def n_rotations(kind):
     if kind == "b1":
         return 2
@@ -171,6 +209,11 @@ def doc_params(tier):
                 if make_pattern(kind, shape, pattern) is not None:
                     for as_list in (False, True) if kind in ("f8", "i8") else (False,):
                         out.append({"t": "pattern", "kind": kind, "shape": list(shape), "pattern": pattern, "list": as_list})
+    for kind in LONG_KINDS:
+        for n in LONG_N if tier == "quick" else LONG_N + (65536, 70001):
+            for pattern in ("steps", "ramp"):
+                for bo in ("=", ">") if kind not in ("b1", "U") else ("=",):
+                    out.append({"t": "long", "kind": kind, "n": n, "pattern": pattern, "bo": bo})
     for a in range(len(ATTRS)):
         out.append({"t": "attrs", "attrs": a})
     for depth in (0, 1, 2):
@@ -193,6 +236,10 @@ def build_doc(p):
         dims = ["x", "y"][: arr.ndim]
         data = arr.tolist() if p["list"] else arr
         g = Group(path="/", url="memory:///r", data={"v": Variable(dims, data, dict(ATTRS[p["attrs"]]))}, attrs={"a": 1})
+        return g, 2
+    if p["t"] == "long":
+        arr = make_long(p["kind"], p["n"], p["pattern"], p["bo"])
+        g = Group(path="/", url=None, data={"rows": Variable(["rows"], list(range(1, p["n"] + 1)), {}), "v": Variable(["rows"], arr, {"units": "Hz"})}, attrs={"coordinates": ["rows"]})
         return g, 2
     if p["t"] == "pattern":
         arr = make_pattern(p["kind"], tuple(p["shape"]), p["pattern"])
@@ -285,7 +332,7 @@ def execute_reader(case):
         mapper = fsspec.get_mapper(prod.url, **prod.storage_options)
         for i, im in enumerate(spec["images"]):
             name = synth.file_names(spec)["img"][i]
-            for rpc in (1, 1024):
+            for rpc in (1, 1024) if spec["images"][i]["lines"] < 1000 else (1024,):
                 g = sar_image.open_image(mapper, name, use_cache=False, records_per_chunk=rpc)
                 before = codecsnap.group_canon(g)
                 try:
@@ -310,6 +357,11 @@ def reader_cases():
         out.append({"fn": "execute_reader", "spec": sp, "devs": [], "label": f"{level} baseline"})
         for mode in ("equal", "drift"):
             out.append({"fn": "execute_reader", "spec": {**sp, "images": [["HH", None, 4, 2], ["HV", "F2" if level == "1.1" else None, 2, 1]], "line_mode": mode}, "devs": [], "label": f"{level} per-line values {mode}"})
+        out.append({"fn": "execute_reader", "spec": {**sp, "images": [["HH", None, 24, 1]], "line_mode": "steps"}, "devs": [], "label": f"{level} per-line values piecewise constant (24 lines)"})
+        # thousands of lines (long per-line columns), extreme values on a few of them
+        tall = [f for f in plain if f["name"] not in synth.LINE_CONSTANTS]
+        for mode in ("steps", "distinct"):
+            out.append({"fn": "execute_reader", "spec": {**sp, "images": [["HH", None, 4200, 1]], "line_mode": mode}, "devs": [["img0", "line", f["key"], {"hex": "ff" * f["w"]}, ln] for f in tall for ln in (0, 4100)] + [["img0", "line", f["key"], {"hex": "80" + "00" * (f["w"] - 1)}, 4199] for f in tall], "label": f"{level} 4200 lines ({mode}), every line field at its maximum on lines 0 and 4100, high bit on the last"})
         for val, nm in (("ff", "max"), ("00", "zero"), ("80", "high bit")):
             out.append({"fn": "execute_reader", "spec": sp, "devs": [["img0", "line", f["key"], {"hex": (val + "00" * (f["w"] - 1)) if nm == "high bit" else val * f["w"]}, None if f["name"] in synth.LINE_CONSTANTS else 1] for f in plain], "label": f"{level} every line field {nm}"})
         out.append({"fn": "execute_reader", "spec": sp, "devs": [["img0", "file_descriptor", k, {"hex": v[0].hex()}] for k, v in c03.HEADER.items()], "label": f"{level} optional header fields blank"})
@@ -326,7 +378,7 @@ def run(res, tier, seed):
         " alphabet rotated through every position (incl. NaN, +-inf, -0.0, denormals, int extremes, 2^53+1, NaT, int64 extremes for"
         " times, non-ASCII / empty strings) x byte order x ndarray|list; 9 attribute dictionaries (int/float extremes, tuples in"
         " lists in tuples, unicode); nesting depth 0..2 x all orders of 3 variables; backend image arrays; reader-produced groups of"
-        " both levels with extreme line fields, blank headers and boundary time stamps, and with per-line values identical on all lines / drifting by one unit per line. Every document goes encode -> decode in"
+        " both levels with extreme line fields, blank headers and boundary time stamps, and with per-line values identical on all lines / drifting by one unit per line / piecewise constant, and 4200-line images with extreme values on a few lines. Every document goes encode -> decode in"
         " process and encode -> text -> fresh interpreter."
     )
     res.assumptions = ["list-valued data is compared as numpy.asarray(list) (the decoder returns arrays)", "shape (0, n) two-dimensional empties are outside the alphabet", "dtypes are compared up to byte order; one array never spans more than 2^63 time units"]
